@@ -59,6 +59,14 @@ def box(o):
     return list(zip(s.items, e.items))
 
 
+def no_shared_boxes(parent, children):
+    """no two areas (parent, children) share a start / end list object: a later in-place change of one must not move another"""
+    boxes = [parent.fields["start"], parent.fields["end"]]
+    for c in children:
+        boxes += [c.fields["start"], c.fields["end"]]
+    return all(boxes[i] is not boxes[j] for i in range(len(boxes)) for j in range(i + 1, len(boxes)))
+
+
 def tiling_clauses(parent_box, children, dim):
     """children: list of boxes [(s_k, e_k)]"""
     inside = []
@@ -112,7 +120,8 @@ class SplitSingleDim(Contract):
                                                           pb[d][0] < cb[0][d][1], cb[0][d][1] < pb[d][1]), prop=True),
                 Cl("children-keep-coarsening", z3.And(*[c.fields["coarseningValue"] == so["coarseningValue"] for c in result.items]), prop=True),
                 Cl("children-count-the-split", z3.And(*[c.fields["needExtendScheme"] == so["needExtendScheme"] + 1 for c in result.items])),
-                Cl("parent-box-unchanged", z3.And(*[z3.And(a == b, c == dd) for (a, c), (b, dd) in zip(box(env["self"]), pb)]))]
+                Cl("parent-box-unchanged", z3.And(*[z3.And(a == b, c == dd) for (a, c), (b, dd) in zip(box(env["self"]), pb)])),
+                Cl("children-own-their-coordinate-lists", no_shared_boxes(env["self"], result.items))]
         return out
 
 
@@ -159,7 +168,8 @@ class SplitArbitraryDim(Contract):
             Cl("children-are-products-of-half-intervals", z3.And(*half)),
             Cl("children-keep-coarsening", z3.And(*[c.fields["coarseningValue"] == so["coarseningValue"] for c in result.items]), prop=True),
             Cl("children-count-the-split", z3.And(*[c.fields["needExtendScheme"] == so["needExtendScheme"] + 1 for c in result.items])),
-            Cl("parent-box-unchanged", z3.And(*[z3.And(a == b, c == dd) for (a, c), (b, dd) in zip(box(env["self"]), pb)]))]
+            Cl("parent-box-unchanged", z3.And(*[z3.And(a == b, c == dd) for (a, c), (b, dd) in zip(box(env["self"]), pb)])),
+            Cl("children-own-their-coordinate-lists", no_shared_boxes(env["self"], result.items))]
 
 
 class RefineExtendSplit(Contract):
